@@ -4636,8 +4636,6 @@ class DecAffine(Affine):
         # variables the expression actually refers to.
         if len(self.event_adapt) > 1:
             return True
-        if self.ctype == 'E':
-            return False
         cols = np.unique(self.linear.nonzero()[1])
         for dvar in self.dro_model.dec_vars:
             if len(dvar.event_adapt) > 1:
